@@ -369,7 +369,8 @@ func (b *TableColumnGroupBox) span() int {
 	if len(b.Children) != 0 {
 		return len(b.Children)
 	}
-	return integerAttribute(utils.HTMLNode(*b.Element).Get("span"), 1)
+	// https://html.spec.whatwg.org/multipage/tables.html#attr-col-span : clamped to the range [1, 1000]
+	return utils.MinInt(integerAttribute(utils.HTMLNode(*b.Element).Get("span"), 1), 1000)
 }
 
 // Return cells that originate in the group's columns.
@@ -392,7 +393,8 @@ func NewTableColumnBox(style pr.ElementStyle, element *html.Node, pseudoType str
 }
 
 func (b *TableColumnBox) span() int {
-	return integerAttribute(utils.HTMLNode(*b.Element).Get("span"), 1)
+	// https://html.spec.whatwg.org/multipage/tables.html#attr-col-span : clamped to the range [1, 1000]
+	return utils.MinInt(integerAttribute(utils.HTMLNode(*b.Element).Get("span"), 1), 1000)
 }
 
 // Read an integer attribute from the HTML element.
